@@ -628,6 +628,11 @@ def check_C08(ctx, rep):
             ok0 = ok0 and all(any(fa.cfg.dominates(rb, b2) and rb != b2 for (rb, f, a, t) in rec_calls) for b2 in isn)
             rep.ob('C08.R5', fn, 'permission-read-after-CounterZero', ok0, 'allow = %s' % shape(e0))
             ok1 = contains(e1, lambda x: is_call(x, '::transition')) and contains(e1, lambda x: isinstance(x, tuple) and x and x[0] == 'agg' and x[2] == 'Changed')
+            # ... as an equality with Changed (not its negation)
+            e1s = strip_sites(e1)
+            eq_form = (isinstance(e1s, tuple) and e1s and ((e1s[0] == 'call' and (e1s[1].endswith('PartialEq>::eq') or e1s[1].endswith('PartialEq::eq'))) or (e1s[0] == 'bin' and e1s[1] == 'Eq')))
+            neg_form = contains(e1s, lambda x: isinstance(x, tuple) and x and ((x[0] == 'call' and (x[1].endswith('PartialEq>::ne') or x[1].endswith('PartialEq::ne'))) or (x[0] == 'bin' and x[1] == 'Ne') or (x[0] == 'un' and x[1] == 'Not')))
+            ok1 = ok1 and (eq_form or not neg_form) and not neg_form
             rep.ob('C08.R5', fn, 'state-changed-from-recursion-result', ok1, 'changed = %s' % shape(e1))
         else:
             rep.ob('C08.R5', fn, 'no-recursion-return', is_const(e0, 1) and is_const(e1, 0), 'returns %s' % shape(v))
